@@ -539,7 +539,10 @@ impl Prop for C18 {
         // layer 1: builder.isi()
         let built = guarded(|| {
             let b = apply(&sc.calls, dummy);
-            b.isi()
+            // the builder is not consumed: asking twice must give the same answer
+            let first = b.isi();
+            let second = b.isi();
+            (first, second)
         });
         let isi = match built {
             Err(msg) => {
@@ -547,7 +550,14 @@ impl Prop for C18 {
                 rep.trace_hash = h.finish();
                 return rep;
             },
-            Ok(i) => i,
+            Ok((i, again)) => {
+                if observe(&i) != observe(&again) {
+                    rep.violations.push(v("isi.not_repeatable", format!("builder.isi() called twice on the same builder gave {:?} and then {:?}", observe(&i), observe(&again))));
+                    rep.trace_hash = h.finish();
+                    return rep;
+                }
+                i
+            },
         };
         let got = observe(&isi);
         h.write(format!("{:?}", got).as_bytes());
@@ -770,19 +780,22 @@ fn connect_run(sc: &BuilderSc, m: &ModelB, want: &ModelIsi, imp: Imp) -> Connect
         let calls = sc.calls.clone();
         let res = guarded(move || -> Result<(), String> {
             let b = apply(&calls, addr);
-            match imp {
-                Imp::Blocking => {
-                    let c = b.connect_blocking().map_err(|e| format!("{:?}", e))?;
-                    drop(c);
-                },
-                Imp::Tokio => {
-                    let rt = tokio::runtime::Builder::new_current_thread().enable_all().build().unwrap();
-                    rt.block_on(async {
-                        let c = b.connect_async().await.map_err(|e| format!("{:?}", e))?;
+            // "The Builder is not consumed and may be reused": connect twice from the same builder
+            for _ in 0..2 {
+                match imp {
+                    Imp::Blocking => {
+                        let c = b.connect_blocking().map_err(|e| format!("{:?}", e))?;
                         drop(c);
-                        Ok::<(), String>(())
-                    })?;
-                },
+                    },
+                    Imp::Tokio => {
+                        let rt = tokio::runtime::Builder::new_current_thread().enable_all().build().unwrap();
+                        rt.block_on(async {
+                            let c = b.connect_async().await.map_err(|e| format!("{:?}", e))?;
+                            drop(c);
+                            Ok::<(), String>(())
+                        })?;
+                    },
+                }
             }
             Ok(())
         });
@@ -792,17 +805,30 @@ fn connect_run(sc: &BuilderSc, m: &ModelB, want: &ModelIsi, imp: Imp) -> Connect
             Ok(Ok(())) => {},
         }
         probes.push(if imp == Imp::Blocking { "connect_tcp_blocking" } else { "connect_tcp_tokio" });
-        let (mut s, _) = match listener.accept() {
-            Ok(x) => x,
-            Err(e) => return fail("connect.error", format!("{} accept failed: {}", tag, e)),
-        };
-        let _ = s.set_read_timeout(Some(Duration::from_secs(10)));
-        let mut got = Vec::new();
-        let _ = s.read_to_end(&mut got);
         let exp = match expected_frame(m.mode, want) {
             Ok(b) => b,
             Err(_) => return ConnectResult { violation: None, probes, digest: String::new() },
         };
+        let mut got = Vec::new();
+        for nth in 0..2 {
+            let (mut s, _) = match listener.accept() {
+                Ok(x) => x,
+                Err(e) => return fail("connect.error", format!("{} accept failed: {}", tag, e)),
+            };
+            let _ = s.set_read_timeout(Some(Duration::from_secs(10)));
+            got.clear();
+            let _ = s.read_to_end(&mut got);
+            if got != exp && nth == 1 {
+                return ConnectResult {
+                    violation: Some(v("connect.wire_mismatch", format!("{} the SECOND connection made from the same builder sent {} until EOF, the configured ISI ({:?}) encodes to {}", tag, hex::enc(&got), m.mode, hex::enc(&exp)))),
+                    probes,
+                    digest: String::new(),
+                };
+            }
+            if got != exp {
+                break;
+            }
+        }
         if got != exp {
             return ConnectResult {
                 violation: Some(v("connect.wire_mismatch", format!("{} listener received {} until EOF, the configured ISI ({:?}) encodes to {}", tag, hex::enc(&got), m.mode, hex::enc(&exp)))),
